@@ -241,4 +241,257 @@ theorem target_oplike {g : GW} {op : WOp} {w' : World} {i : Nat} {v : Iov}
     exact target_via_op .clear .clear .unit .unit _ hv hinv hstep (triv _ rfl)
       (by simp [GW.ghost']) rfl rfl (fun p => ⟨rfl, id⟩)
 
+/-! ### Calls that are not in the single-iovec vocabulary -/
+
+/-- A call the reference treats as the identity or as a whole-pipe move: nothing to say about `ok`. -/
+theorem goal_struct {g : GW} {op : WOp} {w' : World} {j : Nat} (hasop : op.asOp g.w.brefs (g.w.ret op) = none)
+    (hinv : ∀ x, w'.iov j = some x → IovInv w' x)
+    (habs : absW ⟨w', g.ghost' op, g.nid' op⟩ j = (g.pw.structStep op).pipe j) : TargetGoal g op w' j := by
+  refine ⟨hinv, ?_, ?_⟩
+  · rw [habs]; simp only [PW.step, GW.pw, hasop]
+  · simp only [PW.ok, GW.pw, hasop]
+
+/-- … the identity on the named handle, from a `Pushed … []`. -/
+theorem goal_id {g : GW} {op : WOp} {w' : World} {i : Nat} {v v' : Iov}
+    (hasop : op.asOp g.w.brefs (g.w.ret op) = none) (hstruct : g.pw.structStep op = g.pw)
+    (hv : g.w.iov i = some v) (hv' : w'.iov i = some v') (hp : Pushed g.w w' v v' [])
+    (hgh : g.ghost' op i = g.ghost i) (hnid : g.nid' op i = g.nid i) : TargetGoal g op w' i := by
+  obtain ⟨h1, h2⟩ := target_pushed (op := op) [] hv hv' hp hgh hnid
+  refine goal_struct hasop h1 ?_
+  rw [h2, hstruct, Pipe.append_nil]
+  rfl
+
+/-- … appending `bytes` to the named handle, from a `Pushed … bytes`. -/
+theorem goal_append {g : GW} {op : WOp} {w' : World} {i : Nat} {v v' : Iov} (bytes : List UInt8)
+    (hasop : op.asOp g.w.brefs (g.w.ret op) = some (i, .pushCopy bytes, .unit))
+    (hv : g.w.iov i = some v) (hv' : w'.iov i = some v') (hp : Pushed g.w w' v v' bytes)
+    (hgh : g.ghost' op i = g.ghost i) (hnid : g.nid' op i = g.nid i) : TargetGoal g op w' i := by
+  obtain ⟨h1, h2⟩ := target_pushed (op := op) bytes hv hv' hp hgh hnid
+  refine ⟨h1, ?_, ?_⟩
+  · rw [h2]; simp only [PW.step, GW.pw, hasop, fupd_same, specStep]
+  · simp only [PW.ok, GW.pw, hasop, specOk]
+
+/-- Changing parts of the world the abstraction does not read. -/
+theorem Pushed.of_same {w w' w'' : World} {v v' : Iov} {bytes : List UInt8} (h : Pushed w w' v v' bytes)
+    (hheap : w''.heap = w'.heap) (hexts : w''.exts = w'.exts) (hnext : w''.next = w'.next)
+    (hpol : w''.pol = w'.pol) (htun : w''.tun = w'.tun) : Pushed w w'' v v' bytes :=
+  have hb : ∀ s, w''.sliceBytes s = w'.sliceBytes s := fun s => sliceBytes_congr s hheap hexts
+  { inv := h.inv.of_world (fun b => by rw [hexts]; exact Nat.le_refl _) (by rw [hnext]; exact Nat.le_refl _)
+    cells := by rw [absCells_congr (fun s _ => hb s)]; exact h.cells
+    flat := by rw [flat_congr _ (fun s _ => hb s)]; exact h.flat
+    backrefs := h.backrefs, consumedSize := h.consumedSize, consumedSlices := h.consumedSlices
+    logicalSize := h.logicalSize
+    visible := by rw [visible_congr (fun s _ => hb s)]; exact h.visible
+    pol := hpol.trans h.pol, tun := htun.trans h.tun }
+
+theorem sliceBytes_len0 (w : World) (s : Slice) (h : s.len = 0) : w.sliceBytes s = [] := by
+  unfold World.sliceBytes
+  cases s.region <;> simp [Heap.read, h]
+
+/-! #### sub-slices of caller buffers -/
+
+theorem lentOk_at (w : World) (b off len : Nat) (hb : off + len ≤ (w.exts.getD b []).length) :
+    LentOk w ⟨.ext b, off, len⟩ (w.sliceBytes ⟨.ext b, off, len⟩) :=
+  have hl : (w.sliceBytes ⟨.ext b, off, len⟩).length = len := by
+    simp only [World.sliceBytes, List.length_take, List.length_drop]; omega
+  { ext := ⟨b, rfl⟩
+    len := hl.symm
+    bytes := rfl
+    ok := fun hne a =>
+      { pos := by
+          rcases Nat.eq_zero_or_pos len with h0 | h0
+          · exact absurd (sliceBytes_len0 w _ h0) hne
+          · exact h0
+        ext := fun b' hb' => by cases hb'; exact hb
+        chunk := fun c hc => by cases hc } }
+
+theorem extend_single (w : World) (i : Nat) (v : Iov) (s : Slice) (hv : w.iov i = some v) :
+    w.extend i [s] = w.pushBorrowed i s := by
+  by_cases h0 : s.len = 0
+  · simp [World.extend, World.pushBorrowed, hv, h0]
+  · simp only [World.extend, h0, if_false]
+    cases w.pushBorrowed i s <;> simp [World.extend]
+
+theorem World.pushBorrowed_lent (w : World) (i : Nat) (v : Iov) (s : Slice) (bs : List UInt8)
+    (hv : w.iov i = some v) (hinv : IovInv w v) (hl : LentOk w s bs) :
+    ∃ w' v', w.pushBorrowed i s = some w' ∧ w'.iov i = some v' ∧ Pushed w w' v v' bs := by
+  obtain ⟨w', v', h1, h2, h3⟩ := World.extend_spec i [(s, bs)] w v hv hinv (by simpa using hl)
+  simp only [List.map_cons, List.map_nil] at h1
+  rw [extend_single w i v s hv] at h1
+  exact ⟨w', v', h1, h2, by simpa using h3⟩
+
+theorem World.push_lent (w : World) (i : Nat) (v : Iov) (s : Slice) (bs : List UInt8)
+    (hv : w.iov i = some v) (hinv : IovInv w v) (hl : LentOk w s bs) :
+    ∃ w' v', w.push i s = some w' ∧ w'.iov i = some v' ∧ Pushed w w' v v' bs := by
+  rcases World.push_eq w i v s hv with h | h
+  · rw [h, hl.bytes]
+    obtain ⟨w', v', h1, h2, h3, _⟩ := World.pushCopy_total w i v bs hv hinv
+    exact ⟨w', v', h1, h2, h3⟩
+  · rw [h]; exact World.pushBorrowed_lent w i v s bs hv hinv hl
+
+/-! #### the remaining calls on a live handle -/
+
+theorem target_other {g : GW} {op : WOp} {w' : World} {caps : Nat → Nat} {i : Nat} {v : Iov} (hg : GReach g.w caps)
+    (h1 : g.w.step op = some w') (hv : g.w.iov i = some v) (hinv : IovInv g.w v) (hpf : PushFresh g.w op)
+    (hop : (∃ k, op = .reserve i k) ∨ op = .flush i ∨ (∃ ai, op = .swapArena i ai) ∨ op = .takeArena i ∨
+      (∃ c a s sc, op = .readNIov i c a s sc) ∨ (∃ si, op = .pushASlice i si) ∨
+      (∃ b off len, op = .pushAt i b off len) ∨ (∃ b off len, op = .pushBorrowedAt i b off len) ∨
+      op = .clone i ∨ op = .drop i ∨ op = .take i) :
+    TargetGoal g op w' i := by
+  have hwi := hg.reachable.inv
+  have hai := hg.inv
+  rcases hop with ⟨k, rfl⟩ | rfl | ⟨ai, rfl⟩ | rfl | ⟨c, a, src, sc, rfl⟩ | ⟨si, rfl⟩ | ⟨b, off, len, rfl⟩ |
+    ⟨b, off, len, rfl⟩ | rfl | rfl | rfl
+  · -- reserve
+    obtain ⟨s', r, hstep, ⟨x, hx, hix⟩, habs, _⟩ := refines_reserve i (g.st i) k ⟨v, hv, hinv⟩
+    have hw' : some s'.w = some w' := by
+      rw [← h1]
+      simp only [step, GW.st, hv, Option.some.injEq, Prod.mk.injEq] at hstep
+      rw [← hstep.1]
+      simp only [World.step, hv]
+    simp only [Option.some.injEq] at hw'
+    have hgn : s'.ghost = g.ghost i ∧ s'.nextId = g.nid i := by
+      simp only [step, GW.st, hv, Option.some.injEq, Prod.mk.injEq] at hstep
+      rw [← hstep.1]; exact ⟨rfl, rfl⟩
+    subst hw'
+    refine goal_struct rfl (fun y hy => by rw [hx] at hy; cases hy; exact hix) ?_
+    rw [absW_live _ i x hx]
+    rw [abs_eq i s' x hx, hgn.1, hgn.2] at habs
+    exact habs
+  · -- flush
+    obtain ⟨s', r, hstep, ⟨x, hx, hix⟩, habs, _⟩ := refines_flush i (g.st i) ⟨v, hv, hinv⟩
+    have hw' : some s'.w = some w' := by
+      rw [← h1]
+      simp only [step, GW.st, hv, Option.some.injEq, Prod.mk.injEq] at hstep
+      rw [← hstep.1]
+      simp only [World.step, hv]
+    simp only [Option.some.injEq] at hw'
+    have hgn : s'.ghost = g.ghost i ∧ s'.nextId = g.nid i := by
+      simp only [step, GW.st, hv, Option.some.injEq, Prod.mk.injEq] at hstep
+      rw [← hstep.1]; exact ⟨rfl, rfl⟩
+    subst hw'
+    refine goal_struct rfl (fun y hy => by rw [hx] at hy; cases hy; exact hix) ?_
+    rw [absW_live _ i x hx]
+    rw [abs_eq i s' x hx, hgn.1, hgn.2] at habs
+    exact habs
+  · -- swapArena
+    simp only [World.step, hv] at h1
+    cases har : g.w.arena ai with
+    | none => rw [har] at h1; cases h1
+    | some ar =>
+      rw [har] at h1
+      simp only [Option.some.injEq] at h1
+      subst h1
+      have hinv' : IovInv ((g.w.setArena ai (some v.arena)).setIov i (some { v with arena := ar })) { v with arena := ar } :=
+        hinv.set_arena ar rfl (Nat.le_refl _) (fun ca hca => ⟨hwi.arenaOk ai ar har ca hca, fun s hs c hc hcc =>
+          hai.below (.arena ai) ca s (by simp [World.cacheAt, har, hca]) (Or.inl ⟨i, v, hv, hs⟩) (by rw [hc, hcc])⟩)
+      exact goal_id rfl rfl hv (by simp) (Pushed.of_frame_arena ar hinv' (fun _ _ => rfl) rfl rfl) rfl rfl
+  · -- takeArena
+    simp only [World.step, hv, Option.some.injEq] at h1
+    subst h1
+    have hinv' : IovInv ((g.w.setIov i (some { v with arena := ⟨none⟩ })).addArena v.arena).1 { v with arena := ⟨none⟩ } :=
+      hinv.set_arena ⟨none⟩ rfl (Nat.le_refl _) (by intro ca hca; cases hca)
+    exact goal_id rfl rfl hv (by simp) (Pushed.of_frame_arena ⟨none⟩ hinv' (fun _ _ => rfl) rfl rfl) rfl rfl
+  · -- readNIov
+    obtain ⟨w1, ar', res, hrn, hv1, _, hpush, _⟩ := World.readN_spec g.w i v ⟨src, sc⟩ c a hv hinv
+    simp only [World.step, World.readNIov, hv, hrn, hv1] at h1
+    cases res with
+    | ok x =>
+      simp only [Option.some.injEq] at h1
+      subst h1
+      exact goal_id rfl rfl hv (by simp) (hpush.of_same rfl rfl rfl rfl rfl) rfl rfl
+    | error k =>
+      simp only [Option.some.injEq] at h1
+      subst h1
+      exact goal_id rfl rfl hv (by simp) hpush rfl rfl
+  · -- pushASlice
+    simp only [World.step] at h1
+    cases ha : g.w.aslice si with
+    | none => rw [ha] at h1; cases h1
+    | some x =>
+      rw [ha] at h1
+      simp only at h1
+      have hv0 : (g.w.setASlice si none).iov i = some v := by simpa using hv
+      have hinv0 : IovInv (g.w.setASlice si none) v := hinv.of_world (fun _ => Nat.le_refl _) (Nat.le_refl _)
+      have hp0 : Pushed g.w (g.w.setASlice si none) v v [] := Pushed.of_frame hinv hinv0 (fun _ _ => rfl) rfl rfl
+      have hasop : (WOp.pushASlice i si).asOp g.w.brefs (g.w.ret (.pushASlice i si)) =
+          some (i, .pushCopy (g.w.sliceBytes x.slice), .unit) := by
+        simp [WOp.asOp, World.ret, ha]
+      by_cases h0 : x.slice.len = 0
+      · rw [if_pos h0] at h1
+        simp only [Option.some.injEq] at h1
+        subst h1
+        refine goal_append _ hasop hv hv0 ?_ rfl rfl
+        rw [sliceBytes_len0 _ _ h0]; exact hp0
+      · rw [if_neg h0] at h1
+        have hok := hwi.asliceOk si x ha
+        obtain ⟨cx, hcx⟩ : ∃ cx, x.slice.region = .chunk cx := by
+          cases hr : x.slice.region with
+          | chunk k => exact ⟨k, rfl⟩
+          | ext b => exact absurd (hok.extEmpty b hr) h0
+        have hheld : HeldOk (g.w.setASlice si none) v x.slice := by
+          refine ⟨⟨cx, hcx⟩, ?_, fun y hy => hpf i si v x rfl hv ha y hy⟩
+          intro c' hc'
+          refine ⟨hwi.hasSlice_lt (hasSlice_aslice ha) hc', ?_⟩
+          intro ca hca hcc
+          exact hai.below (.iov i) ca x.slice (by rw [cacheAt_iov hv]; exact hca) (hasSlice_aslice ha) (by rw [hc', hcc])
+        obtain ⟨w1, v1, g1, g2, g3, _, _⟩ := World.pushHeld_total (g.w.setASlice si none) i v x.slice
+          (g.w.sliceBytes x.slice) hv0 hinv0 hheld rfl
+        rw [g1] at h1
+        simp only at h1
+        obtain ⟨m1, m2⟩ := World.pushAnchor_spec w1 i v1 x.anchor g2 g3.inv
+        rw [m1] at h1
+        simp only [Option.some.injEq] at h1
+        subst h1
+        refine goal_append _ hasop hv (World.iov_setIov w1 i _) ?_ rfl rfl
+        simpa using (hp0.trans g3).trans m2
+  · -- pushAt
+    simp only [World.step] at h1
+    split at h1
+    · rename_i hb
+      obtain ⟨w1, v1, g1, g2, g3⟩ := World.push_lent g.w i v _ _ hv hinv (lentOk_at g.w b off len hb)
+      rw [g1] at h1
+      simp only [Option.some.injEq] at h1
+      subst h1
+      exact goal_append _ rfl hv g2 g3 rfl rfl
+    · cases h1
+  · -- pushBorrowedAt
+    simp only [World.step] at h1
+    split at h1
+    · rename_i hb
+      obtain ⟨w1, v1, g1, g2, g3⟩ := World.pushBorrowed_lent g.w i v _ _ hv hinv (lentOk_at g.w b off len hb)
+      rw [g1] at h1
+      simp only [Option.some.injEq] at h1
+      subst h1
+      exact goal_append _ rfl hv g2 g3 rfl rfl
+    · cases h1
+  · -- clone: the original
+    simp only [World.step, World.clone, hv, Option.some.injEq] at h1
+    subst h1
+    have hin : i ≠ g.w.iovs.length := Nat.ne_of_lt (iov_lt_of_some hv)
+    have hinv' : IovInv (g.w.addIov { v with arena := ⟨none⟩ }).1 v := hinv.of_world (fun _ => Nat.le_refl _) (Nat.le_refl _)
+    refine goal_struct rfl (fun y hy => by simp [hin, hv] at hy; subst hy; exact hinv') ?_
+    rw [absW_live _ i v (by simp [hin, hv])]
+    simp only [GW.ghost', GW.nid', PW.structStep, GW.pw, fupd_ne _ _ hin]
+    rw [absW_live g i v hv]
+    rfl
+  · -- drop
+    simp only [World.step, World.dropIov, hv, Option.some.injEq] at h1
+    subst h1
+    refine goal_struct rfl (fun y hy => by simp at hy) ?_
+    rw [absW_dead _ i (by simp)]
+    simp [PW.structStep, GW.pw]
+  · -- take: the handle keeps an empty iovec
+    simp only [World.step, World.take, hv, Option.some.injEq] at h1
+    subst h1
+    have hin : i ≠ g.w.iovs.length := Nat.ne_of_lt (iov_lt_of_some hv)
+    have hlen : (g.w.setIov i (some Iov.empty)).iovs.length = g.w.iovs.length := setIov_length _ hv
+    have hiov : ((g.w.setIov i (some Iov.empty)).addIov v).1.iov i = some Iov.empty := by
+      rw [iov_addIov, hlen, if_neg hin]; simp
+    refine goal_struct rfl (fun y hy => ?_) ?_
+    · rw [hiov] at hy; cases hy
+      exact IovInv.empty _ ⟨none⟩ (by intro ca hca; cases hca)
+    · rw [absW_live _ i Iov.empty hiov]
+      simp [GW.ghost', GW.nid', PW.structStep, GW.pw, absCells, Iov.empty, mkCells, Woodpile.Pipe.empty]
+
 end Woodpile.Iovec
